@@ -72,10 +72,31 @@ def check_split(rep, repo, name, with_index):
     # the bound
     halts = set()
 
+    def simp(b):
+        """n - (n - h) is h: sums and differences are folded (everything else is an atom)."""
+        def lin(t):
+            if t[0] == "const" and isinstance(t[1], int) and not isinstance(t[1], bool):
+                return {1: t[1]}
+            if t[0] == "bin" and t[1] in ("+", "-"):
+                a, c = lin(t[2]), lin(t[3])
+                out = dict(a)
+                for k, v in c.items():
+                    out[k] = out.get(k, 0) + (v if t[1] == "+" else -v)
+                return {k: v for k, v in out.items() if v != 0}
+            if t[0] == "neg":
+                return {k: -v for k, v in lin(t[1]).items()}
+            return {t: 1}
+        if b is None:
+            return b
+        f = lin(b)
+        if len(f) == 1 and 1 not in f and next(iter(f.values())) == 1:
+            return next(iter(f))
+        return b
+
     def part(t):
         """(which, bound) for perm[:h] / perm[h:]"""
         if t[0] == "idx" and t[1] == perm and t[2][0] == "slice" and t[2][3] is None:
-            lo, hi = t[2][1], t[2][2]
+            lo, hi = simp(t[2][1]), simp(t[2][2])
             if lo is None and hi is not None:
                 halts.add(hi)
                 return "first"
@@ -195,9 +216,62 @@ def converter_facts(repo, name):
         if obj is not None and obj[0] == "listcomp":
             facts["row"] = obj[1]
             facts["row_from_listcomp"] = True
+    if facts["row"] is not None and sv and len(app) == 1:
+        # rows collected first (xs.append(T)) and re-shaped by a comprehension over xs when written
+        obj = sv[0].args[1] if sv[0].name == "numpy.savetxt" and len(sv[0].args) > 1 else (sv[0].args[0] if sv[0].args else None)
+        if obj is not None and obj[0] == "dict":
+            for k, v in obj[1]:
+                if k == ("const", "data"):
+                    obj = v
+        T = facts["row"]
+        if obj is not None and obj[0] == "listcomp" and len(obj[2]) == 1 and not obj[2][0][2] \
+                and obj[2][0][0] == app[0].target[1] and T[0] == "tuple":
+            facts["row"] = _through_rows(obj[1], T, obj[2][0][0], obj[2][0][1])
+            facts["row_from_listcomp"] = True
+    facts["row"] = _unlist_stars(facts["row"])
     facts["walker"] = w
     facts["fi"] = fi
     return facts
+
+
+def _unlist_stars(t):
+    """`*list(xs)` inside a display contributes the same items as `*xs`; list(list(xs)) is list(xs)."""
+    if not isinstance(t, tuple) or not t:
+        return t
+    t = tuple(_unlist_stars(x) for x in t)
+    if t[0] == "star" and len(t) == 2 and isinstance(t[1], tuple) and t[1][:2] == ("alloc", "builtin.list") \
+            and len(t[1][2]) == 1:
+        return ("star", t[1][2][0])
+    if t[:2] == ("alloc", "builtin.list") and len(t[2]) == 1 and isinstance(t[2][0], tuple) \
+            and t[2][0][:2] == ("alloc", "builtin.list") and len(t[2][0][2]) == 1:
+        return t[2][0]
+    return t
+
+
+def _through_rows(elt, T, dom, lid):
+    """The comprehension's element with every projection of the iterated row replaced by that component of the
+    appended tuple T = (a_0, ..., a_{k-1}, *X):  row[i] -> a_i,  row[k:] -> X."""
+    items = T[1]
+    fixed = []
+    for x in items:
+        if x[0] == "star":
+            break
+        fixed.append(x)
+    tail = items[len(fixed)][1] if len(fixed) < len(items) and len(items) == len(fixed) + 1 else None
+    row = ("iter", dom, lid)
+
+    def R(t):
+        if not isinstance(t, tuple) or not t:
+            return t
+        if t[0] == "iterproj" and t[1] == dom and t[2] == lid and len(t[3]) == 1 and isinstance(t[3][0], int) \
+                and t[3][0] < len(fixed):
+            return fixed[t[3][0]]
+        if t[0] == "idx" and t[1] == row and t[2][0] == "const" and isinstance(t[2][1], int) and 0 <= t[2][1] < len(fixed):
+            return fixed[t[2][1]]
+        if t[0] == "idx" and t[1] == row and t[2] == ("slice", ("const", len(fixed)), None, None) and tail is not None:
+            return tail
+        return tuple(R(x) for x in t)
+    return R(elt)
 
 
 def check_converters(rep, repo):
@@ -228,7 +302,7 @@ def check_converters(rep, repo):
             if okrow:
                 d = {k[1]: v for k, v in row[1] if k[0] == "const"}
                 ft = d.get("features")
-                if ft is not None and ft[0] == "alloc" and ft[1] == "builtin.list":
+                while ft is not None and ft[0] == "alloc" and ft[1] == "builtin.list" and len(ft[2]) == 1:
                     ft = ft[2][0]
                 okrow = d.get("id") == idt and d.get("label") == lab and ft == feats and set(d) == {"id", "label", "features"}
             wr = f["writer"]
